@@ -72,6 +72,11 @@ use session::{Session, Sessions};
 use self::mrp::mrp_log;
 
 mod dedup;
+/// Verification hooks: re-export of module-private transport types.
+#[cfg(rs_matter_verif)]
+pub mod verif_hooks {
+    pub use super::dedup::*;
+}
 
 pub mod exchange;
 pub mod mrp;
